@@ -13,6 +13,7 @@ import TantivyModel.Proofs.JsonPositions
 import TantivyModel.Proofs.RecorderRemap
 import TantivyModel.Proofs.BlockCursorDrain
 import TantivyModel.Proofs.PositionReader
+import TantivyModel.Proofs.PositionsAfterSeeks
 /-!
 # C07 — The inverted index records exactly the terms, documents, frequencies, positions
 
@@ -371,6 +372,62 @@ theorem C07_position_reader_step (c : Cfg) (h8 : 8 ∣ c.B) (hB : 0 < c.B) (hS :
     (s.read c offset len).1 = (D.drop offset).take len ∧
     ∃ a', Positions.Core c D (s.read c offset len).2 a' ∧ Positions.Loaded c D (s.read c offset len).2 a' :=
   Positions.read_spec c h8 hB hS hP D s a hc hl offset len hrange
+
+/-- **Positions after any seek program.**  Drive the postings cursor of a term through any program
+of `advance` / `seek`; for every document it lands on, ask the (one, stateful) position reader for
+`term_freq` values at the cursor's read offset (`position_offset + Σ freqs[..cur]`): the answers
+are, in order, exactly the position deltas of those documents — across skipped postings blocks
+(`tf_sum` of the skip entries) and across 128-value blocks of the position stream, with reads
+going forwards only as far as the program does. -/
+theorem C07_positions_after_seeks (docs : List Nat) (perDoc : List (List Nat))
+    (hv : ValidList docs (perDoc.map List.length)) (hT : ∀ d ∈ docs, d < cfg.T)
+    (hsum : BlockSumsFit cfg (perDoc.map List.length))
+    (ops : List Op) (hops : ∀ t, Op.seek t ∈ ops → t ≤ cfg.T) :
+    ∃ s, Positions.Reader.open cfg (Positions.encode cfg perDoc.flatten) = some s ∧
+      Positions.Reader.reads cfg s
+        (positionRequests cfg.T (run cfg .positions
+          (Cursor.init (chunkBlocks cfg .positions (docs.length / cfg.B) docs (perDoc.map List.length))) ops)) =
+      ((specIdxs docs ⟨0⟩ ops).filter (· < docs.length)).map (fun i => perDoc.getD i []) := by
+  have hrun := C07_seek_equiv .positions docs (perDoc.map List.length) hv hT hsum ops hops
+  have hobs : obsTfs .positions (perDoc.map List.length) = perDoc.map List.length := rfl
+  rw [hrun, hobs, specRun_eq_map, requests_of_spec cfg.T docs _ hT]
+  have hlen : perDoc.length = docs.length := by simpa using hv.len
+  obtain ⟨s, h1, hc, hl⟩ := Positions.open_encode cfg (by decide) perDoc.flatten
+  refine ⟨s, h1, ?_⟩
+  have hslice : ∀ i, i < docs.length →
+      (perDoc.flatten.drop ((perDoc.map List.length).take i).sum).take ((perDoc.map List.length).getD i 1) =
+        perDoc.getD i [] := by
+    intro i hi
+    have hi' : i < perDoc.length := by omega
+    have hg : (perDoc.map List.length).getD i 1 = (perDoc.getD i []).length := by
+      simp [List.getD_eq_getElem?_getD, List.getElem?_eq_getElem hi']
+    rw [hg, take_map_length_sum]
+    exact Positions.slice_flatten perDoc i
+  have hrange : ∀ r ∈ ((specIdxs docs ⟨0⟩ ops).filter (· < docs.length)).map
+      (fun i => (((perDoc.map List.length).take i).sum, (perDoc.map List.length).getD i 1)),
+      r.1 + r.2 ≤ perDoc.flatten.length := by
+    intro r hr
+    obtain ⟨i, hi, rfl⟩ := List.mem_map.mp hr
+    have hi' : i < docs.length := by simpa using (List.mem_filter.mp hi).2
+    have := hslice i hi'
+    have hl1 : ((perDoc.flatten.drop ((perDoc.map List.length).take i).sum).take
+        ((perDoc.map List.length).getD i 1)).length = (perDoc.getD i []).length := by rw [this]
+    have hg : (perDoc.map List.length).getD i 1 = (perDoc.getD i []).length := by
+      have hi'' : i < perDoc.length := by omega
+      simp [List.getD_eq_getElem?_getD, List.getElem?_eq_getElem hi'']
+    have hpos : 1 ≤ (perDoc.map List.length).getD i 1 := by
+      have hi'' : i < (perDoc.map List.length).length := by simp; omega
+      apply hv.tfpos
+      simp only [List.getD_eq_getElem?_getD, List.getElem?_eq_getElem hi'', Option.getD_some]
+      exact List.getElem_mem hi''
+    rw [List.length_take, List.length_drop, hg] at hl1
+    simp only
+    omega
+  rw [Positions.reads_spec cfg (by decide) (by decide) (by decide) C07_bp4x_good _ _ s 0 hc hl hrange]
+  simp only [List.map_map]
+  apply List.map_congr_left
+  intro i hi
+  exact hslice i (by simpa using (List.mem_filter.mp hi).2)
 
 /-! ### field norms -/
 
